@@ -4,6 +4,7 @@ import (
 	"bytes"
 	"encoding/json"
 	"fmt"
+	"math"
 	"sort"
 	"strings"
 	"sync"
@@ -54,6 +55,41 @@ func badValue(kind string) interface{} {
 		return struct{}{}
 	case "nil":
 		return nil
+	// round 11: the same few values in every Go type that can carry them (a fill and the factory must agree on each)
+	case "neg-int8":
+		return int8(-1)
+	case "neg-int16":
+		return int16(-1)
+	case "neg-int32":
+		return int32(-1)
+	case "neg-int64":
+		return int64(-1)
+	case "min-int64":
+		return int64(math.MinInt64)
+	case "min-int32":
+		return int32(math.MinInt32)
+	case "max-uint32":
+		return uint32(math.MaxUint32)
+	case "max-uint16":
+		return uint16(math.MaxUint16)
+	case "max-uint":
+		return uint(math.MaxUint64)
+	case "uint-256":
+		return uint(256)
+	case "float32-inf":
+		return float32(math.Inf(1))
+	case "float32-neg-inf":
+		return float32(math.Inf(-1))
+	case "float32-nan":
+		return float32(math.NaN())
+	case "float32-1.5":
+		return float32(1.5)
+	case "float64-inf":
+		return math.Inf(1)
+	case "int8-127":
+		return int8(127)
+	case "uint8-255":
+		return uint8(255)
 	case "bool":
 		return true
 	case "f4-just-over":
@@ -369,7 +405,7 @@ func nearMissKey(r *rng.R, name string) string {
 func runC09(c *ctx) {
 	c.Rule = "ellipsis-free templates over all node kinds (nesting <= 6, variables in scalar slots, list variables, ASCII variables with bounds) x assignments (total, partial, empty, with unknown keys, values of every accepted Go type) : FillVariables must equal direct construction with the values in place (String, Variables, Size, ToBytes), equal the model substitution, leave remaining variables in order, refuse exactly when the constructor refuses (out-of-domain values of 12 kinds), compose over every set partition of <= 4 keys (random ordered splits beyond), and keep the message header while filling. non-trivial = at least one key names a variable of the template; distinct by (template, keys, split, bad values) Also (rounds 4-8): near-miss unknown keys; a string fill value renames (21 names incl. T, F, type names); named-type and pointer values; every fill repeated through a message (refusal must agree); one shared 64-slot template per kind filled by eight goroutines with their own values. Also (round 9): text values that spell the name of the variable they fill or of another variable. Also (round 10): two messages stamped from one template object and then filled are compared with direct construction after both exist; a stamped, filled and encoded message is stamped again and its first encoding re-read."
 	c.Assume = []string{"fill-in values are variable-free (as the property quantifies)", "direct construction = the repository's own factories called with the values in place"}
-	badKinds := []string{"neg", "big", "huge", "float", "nan", "str-nonascii", "str-long", "int-for-ascii", "struct", "nil", "bool", "f4-just-over", "f4-over", "f4-neg-over", "int-over-u4", "uint8-300", "named-uint32", "named-float64", "named-int", "duration", "named-string", "named-bool", "pointer-to-int"}
+	badKinds := []string{"neg", "big", "huge", "float", "nan", "str-nonascii", "str-long", "int-for-ascii", "struct", "nil", "bool", "f4-just-over", "f4-over", "f4-neg-over", "int-over-u4", "uint8-300", "named-uint32", "named-float64", "named-int", "duration", "named-string", "named-bool", "pointer-to-int", "neg-int8", "neg-int16", "neg-int32", "neg-int64", "min-int64", "min-int32", "max-uint32", "max-uint16", "max-uint", "uint-256", "float32-inf", "float32-neg-inf", "float32-nan", "float32-1.5", "float64-inf", "int8-127", "uint8-255"}
 	n := c.pick(50000, 500000)
 	c.parallel(n, func(i int, r *rng.R) {
 		g := gen.New(r, gen.Profile{MaxDepth: 1 + r.Intn(6), Vars: true, Budget: 300, MaxKids: 4, MaxElems: 5})
